@@ -121,13 +121,20 @@ Theorem C08_request_path : forall p,
 Proof. exact path_preserved. Qed.
 Print Assumptions C08_request_path.
 
-(* Every end-to-end request field reaches the origin with all its values in order
-   (the conditionals the cache consumes aside). *)
+(* Every end-to-end request field reaches the origin with all its values in order; only on the methods the cache may
+   answer itself (GET, HEAD) are the client's conditionals consumed by the cache layer. *)
 Theorem C08_request_headers : forall r u n,
-  relay_request r = Some u -> end_to_end n (c_hdrs r) -> ~ is_conditional n ->
+  relay_request r = Some u -> end_to_end n (c_hdrs r) -> (cache_answers (c_method r) = true -> ~ is_conditional n) ->
   hvalues n (q_hdrs u) = hvalues n (c_hdrs r).
 Proof. exact request_headers_faithful. Qed.
 Print Assumptions C08_request_headers.
+
+(* In particular a write (PUT, DELETE, PATCH, POST, ...) reaches the origin with its preconditions (If-Match, ...). *)
+Theorem C08_write_preconditions : forall r u n,
+  relay_request r = Some u -> cache_answers (c_method r) = false -> end_to_end n (c_hdrs r) ->
+  hvalues n (q_hdrs u) = hvalues n (c_hdrs r).
+Proof. exact write_headers_faithful. Qed.
+Print Assumptions C08_write_preconditions.
 
 (* --- non-vacuity -------------------------------------------------------- *)
 Definition b_set_cookie : str := [83;101;116;45;67;111;111;107;105;101].
